@@ -18,9 +18,14 @@ K_cx         == {"cx"}
 K_mv         == {"mv"}
 K_br         == {"br"}
 K_fs         == {"fs"}
+K_ob         == {"ob", "opt"}      \* with the xoptional instantiations it assigns from/to
+K1           == {"cw", "cp", "pw", "br", "fs"}
 CatsAll      == AllCats
 CatsFew      == {"lv", "clv", "xvar", "pr"}
 CatsMin      == {"lv", "xtemp"}
+CatsMin3     == {"lv", "clv", "pr"}
+CatsLv       == {"lv"}
+CatsMin2     == {"lv", "pr"}
 ClsAll       == {"make", "life", "var", "read", "assign", "clone", "pair", "addr"}
 V12          == {1, 2}
 V2           == {2}
